@@ -3,8 +3,9 @@ package main
 func init() {
 	register(&Spec{
 		ID:       "C18",
-		Pkgs:     []string{"rules"},
-		InitPkgs: []string{"filterutil", "rules"},
+		Pkgs:     []string{"root", "rules", "filterutil", "lookup", "filterlist"},
+		InitPkgs: []string{"filterutil", "rules", "filterlist", "lookup", "root"},
+		AbstractHash: true,
 		Jobs: func(tier string) []Job {
 			jobs := []Job{{Pkg: "rules", Func: "verifC18Vacuity", Vacuity: true}}
 			maxNames, maxLen := 2, 2
@@ -23,15 +24,17 @@ func init() {
 					jobs = append(jobs, Job{Pkg: "rules", Func: "verifC18Bare", Args: []int64{int64(d), int64(c)}})
 				}
 			}
+			// through the DNS engine: host rules are reported under the group of their address family
+			jobs = append(jobs, Job{Pkg: "root", Func: "verifC02", Args: []int64{1, 0, 2, 2}}, Job{Pkg: "root", Func: "verifC02", Args: []int64{2, 0, 2, 2}})
 			return jobs
 		},
-		Setup:     setupNetip,
+		Setup:     setupDNS,
 		MustReach: []string{"c18.parsed", "c18.match", "c18.bare"},
 		Bounds: map[string]string{
-			"quick":    "address from a menu of 5 literals (IPv4, IPv6, v4-mapped); 1..2 names of 1..2 symbolic bytes over {a,b,.}; separators of 1..2 symbolic blanks/tabs; comment absent, directly attached or after blanks with <=2 symbolic bytes over {#,a,space}; trailing blanks; queried name symbolic; bare domains from a menu of 5",
+			"quick":    "address from a menu of 5 literals (IPv4, IPv6, v4-mapped); 1..2 names of 1..2 symbolic bytes over {a,b,.}; separators of 1..2 symbolic blanks/tabs; comment absent, directly attached or after blanks with <=2 symbolic bytes over {#,a,space}; trailing blanks; queried name symbolic; bare domains from a menu of 5; through the DNS engine: 1..2 host rules with IPv4 / IPv6 / IPv4-mapped addresses (C02 harness)",
 			"thorough": "1..3 names of 1..3 symbolic bytes, otherwise as quick",
 		},
-		Outside:     []string{"more than 3 names (the property says up to 8)", "names longer than 3 bytes or outside {a,b,.}", "the DNS engine's address-family split (C02)", "netip's text parser (called on the concrete address literal only)"},
+		Outside:     []string{"more than 3 names (the property says up to 8)", "names longer than 3 bytes or outside {a,b,.}", "netip's text parser (called on the concrete address literal only)"},
 		Assumptions: []string{"netip.ParseAddr is executed natively on concrete literals and its result imported; on symbolic tokens over {a,b,.,space,tab,#} it is modelled as rejecting (no digit and no colon can occur)"},
 		Rule:        "lengths fork (verifChoice); bytes are symbolic; one state per feasible path",
 	})
